@@ -255,3 +255,59 @@ class World:
 
 def canon_world(w):
     return session_canon()
+
+
+# --------------------------------------------------------------------------------------
+# introspection of held elements and reference call trees (C06, C08)
+
+def held_elems(m):
+    """[{inst, c, key, value, is_input, cells}] for every held element incl. dynamic spaces."""
+    from mxmc.session import walk_spaces, space_path, render
+    out = []
+    for s in walk_spaces(m):
+        sp = space_path(s)
+        for n, c in s.cells.items():
+            impl = c._impl
+            for k, v in impl.data.items():
+                out.append({"inst": sp, "c": n, "key": k, "value": render(v),
+                            "is_input": k in impl.input_keys, "cells": c,
+                            "elem": (sp + "." + n, json.dumps(render(k)))})
+    return out
+
+
+def item_elems(m):
+    """[(space path, key, space interface)] for every live ItemSpace."""
+    from mxmc.session import walk_spaces, space_path, render
+    out = []
+    for s in walk_spaces(m):
+        try:
+            ps = s._impl.param_spaces
+        except BaseException:
+            continue
+        for k in ps:
+            out.append((space_path(s), json.dumps(render(k)), s, k))
+    return out
+
+
+class RefTrees:
+    """Reference call trees of elements under the current reference definitions."""
+
+    def __init__(self, rm, tick=None):
+        from mxmc.refsem import Evaluator
+        self.ev = Evaluator(rm, tick=tick or (lambda: 0))
+        self.memo = {}
+
+    def tree(self, inst, c, key):
+        k = (inst, c, tuple(key))
+        if k not in self.memo:
+            r = self.ev.eval(inst, c, key)
+            self.memo[k] = r
+        return self.memo[k]
+
+    def closure(self, inst, c, key):
+        """All elements (cached or not) in the tree of the element, incl. itself; None if undefined."""
+        from mxmc.refsem import tree_elems
+        r = self.tree(inst, c, key)
+        if r[0] != "ok":
+            return None
+        return set(tree_elems(r[2]))
